@@ -90,7 +90,7 @@ def run(ctx, report: Report) -> None:
     report.analysed['fallback_edges'] = sorted(set(map(str, cg.fallback_edges)))[:20]
 
     # ---- R1 ----------------------------------------------------------------------------------------------
-    r1 = report.rule('C16-R1', 'no import-time dereference of a bs4 name that is not bound yet', floor=2)
+    r1 = report.rule('C16-R1', 'no import-time dereference of a bs4 name that is not bound yet', floor=1)
 
     def bs4_aliases(mod):
         """local name -> bs4 module path it denotes ('bs4', 'bs4.element')."""
@@ -306,7 +306,7 @@ def run(ctx, report: Report) -> None:
         raise AnalysisError('fewer than 10 import-time selector constants found (anchor vanished)')
 
     # ---- R4 ----------------------------------------------------------------------------------------------
-    r4 = report.rule('C16-R4', 'every name exported by __all__ is bound (star-import works)', floor=5)
+    r4 = report.rule('C16-R4', 'every name exported by __all__ is bound (star-import works)', floor=3)
     for mn, mod in src.mods.items():
         for st in mod.tree.body:
             if not (isinstance(st, (ast.Assign, ast.AnnAssign)) and any(
